@@ -9,6 +9,45 @@ pub struct Prompt {
     commands: Commands,
 }
 
+#[cfg(feature = "verif_hooks")]
+impl Prompt {
+    /// Scripted line source (verification hook): reads the lines of one
+    /// entry from stdin instead of the terminal, with the same continuation
+    /// rule as the interactive prompt. A record separator is written to
+    /// stdout and stderr before each entry; end of input acts as "quit".
+    fn verif_show() -> String {
+        use std::io::{BufRead, Write};
+        print!("\x1e");
+        eprint!("\x1e");
+        let _ = std::io::stdout().flush();
+        let mut input_lines = Vec::new();
+        loop {
+            let mut input_line = String::new();
+            match std::io::stdin().lock().read_line(&mut input_line) {
+                Ok(0) | Err(_) => {
+                    if input_lines.is_empty() {
+                        return "quit".to_string();
+                    }
+                    break;
+                }
+                Ok(_) => {}
+            }
+            let input_line = input_line.trim_end_matches(|c| c == '\n' || c == '\r').to_string();
+            let is_continuation = input_line.trim_end().ends_with('\\');
+            let cleaned_line = if is_continuation {
+                input_line.trim_end_matches('\\').to_string()
+            } else {
+                input_line
+            };
+            input_lines.push(cleaned_line);
+            if !is_continuation {
+                break;
+            }
+        }
+        input_lines.join("\n")
+    }
+}
+
 impl Prompt {
     pub fn new(entries: usize, commands: &[String]) -> Self {
         Prompt {
@@ -18,6 +57,11 @@ impl Prompt {
     }
 
     pub fn show(&mut self) -> Result<String, dialoguer::Error> {
+        #[cfg(feature = "verif_hooks")]
+        if std::env::var_os("P2SH_VERIF_REPL").is_some() {
+            return Ok(Self::verif_show());
+        }
+
         let mut input_lines = Vec::new();
 
         loop {
